@@ -164,7 +164,7 @@ theorem SplitInv.splitInsertFold {dir n : ℕ} {s e : K} {p c : ℕ} (hd : dir <
         let cont : Int := match c with
           | none => ((o.basis dir).order : Int) - 1
           | some c => c
-        so.insertKnotsSeq (List.replicate (cont + 1).toNat k) dir) so = .ok so' →
+        so.insertKnots (List.replicate (cont + 1).toNat k) dir) so = .ok so' →
       SplitInv dir n s e p c so' := by
   induction knots with
   | nil =>
@@ -177,9 +177,9 @@ theorem SplitInv.splitInsertFold {dir n : ℕ} {s e : K} {p c : ℕ} (hd : dir <
     obtain ⟨so1, hstep, hrest⟩ := bind_ok hs
     obtain ⟨c, hc, hins⟩ := bind_ok hstep
     have hkk := hk k List.mem_cons_self
-    have h1 := SplitInv.insertKnotsSeq hd _ (by
+    have h1 := h.insertKnots hd _ (by
       intro y hy
-      rw [List.eq_of_mem_replicate hy]; exact hkk) h hins
+      rw [List.eq_of_mem_replicate hy]; exact hkk) hins
     exact ih (fun y hy => hk y (List.mem_cons_of_mem _ hy)) h1 hrest
 
 /-- **The first loop of `split` keeps the object well formed**, with the same number of bases and,
